@@ -136,7 +136,7 @@ Definition sort_graph (gr : graph) : res unit * list (nat * list nat) :=
 Definition sort_function (gr : graph) := sort_graph gr.
 
 (* TopologicalSortPass.call: the main graph, then every function, stopping at the first ValueError;
-   modified = some position of the concatenated top-level sequences holds another node. *)
+   modified: see sort_pass below. *)
 Fixpoint sort_units (us : list graph) : res unit * list (list (nat * list nat)) :=
   match us with
   | [] => (Ok tt, [])
@@ -146,10 +146,34 @@ Fixpoint sort_units (us : list graph) : res unit * list (list (nat * list nat)) 
       | (Raise e, o) => (Raise e, o :: map orders r)
       end
   end.
-Definition top_seq (os : list (list (nat * list nat))) : list nat :=
-  concat (map (fun o => match o with [] => [] | (_, l) :: _ => l end) os).
+(* list(RecursiveGraphIterator(g)) once the graphs have the node sequences `ord`: the block of every
+   node (the node, then its attribute graphs in attribute order) arranged by the graph's sequence *)
+Fixpoint flat_new_n (ord : nat -> list nat) (n : node) : list nat :=
+  match n with
+  | Node i _ subs =>
+      i :: concat (map (fun s : nat * list node =>
+                          let '(gi, body) := s in
+                          concat (map (fun x => lookup [] x (map (fun k => (nid k, flat_new_n ord k)) body))
+                                      (ord gi))) subs)
+  end.
+Definition flat_new (gr : graph) (o : list (nat * list nat)) : list nat :=
+  let ord := fun g => lookup [] g o in
+  concat (map (fun x => lookup [] x (map (fun k => (nid k, flat_new_n ord k)) (snd gr))) (ord (fst gr))).
+(* `for node, new_node in zip(original_nodes, sorted_nodes): if node is not new_node` *)
+Fixpoint zip_differs (a b : list nat) : bool :=
+  match a, b with
+  | x :: a', y :: b' => negb (Nat.eqb x y) || zip_differs a' b'
+  | _, _ => false
+  end.
+Fixpoint flat_all (us : list graph) (os : list (list (nat * list nat))) : list nat :=
+  match us, os with
+  | u :: us', o :: os' => flat_new u o ++ flat_all us' os'
+  | _, _ => []
+  end.
+(* since 733a9c1: modified = some position of the concatenated recursive node sequences (main graph, then
+   every function) holds another node after the sorts *)
 Definition sort_pass (us : list graph) : res bool * list (list (nat * list nat)) :=
   match sort_units us with
-  | (Ok _, os) => (Ok (negb (list_eqb Nat.eqb (top_seq (map orders us)) (top_seq os))), os)
+  | (Ok _, os) => (Ok (zip_differs (flat_all us (map orders us)) (flat_all us os)), os)
   | (Raise e, os) => (Raise e, os)
   end.
